@@ -29,6 +29,21 @@ class C17(Check):
                 c["rule_configs"] = {"core": {"runaway_limit": 2}}
             yield c
 
+        # lines whose length sits around max_line_length (80) before / after other rules insert or remove text on them
+        # (implicit aliases, missing AS, double blanks, trailing comments incl. noqa): the interplay of LT05 with the
+        # other fixes of the same pass is where a second pass finds more to do
+        for n in range(72, 86):
+            pad = "a" * max(1, n - len("SELECT  AS col_one, b FROM some_table_name t WHERE t.b = 1"))
+            line = f"SELECT {pad} AS col_one, b FROM some_table_name t WHERE t.b = 1"
+            for rules in ("all", "format"):
+                yield {"dialect": "ansi", "sql": line + "\n", "rules": rules, "origin": "line-length-family"}
+                yield {"dialect": "ansi", "sql": line.replace(" AS col_one", " col_one") + "\n", "rules": rules,
+                       "origin": "line-length-family"}
+        for cm in ("-- note", "-- note -- noqa: LT01", "-- noqa: LT01", "-- a long explanation -- noqa: CP01", "/* c */"):
+            for rules in ("all", "format", "layout"):
+                yield {"dialect": "ansi", "origin": "long-line-comment-family", "rules": rules,
+                       "sql": "SELECT  a_rather_long_column_name,  another_rather_long_column_name from  some_table_name " + cm + "\n"}
+
     def strategy(self, tier):
         base = fixlib.fix_case(tier=tier, rules=st.sampled_from(["format", "format", "layout", "all"]),
                                kinds=SOFT_KINDS if tier == "quick" else None)
